@@ -4,6 +4,7 @@ import EaselModel.Miniapps.AliLemmas
 import EaselModel.Miniapps.Compstruct
 import EaselModel.Miniapps.Compalign
 import EaselModel.Miniapps.SmallLemmas
+import EaselModel.Miniapps.SmallSplit
 import EaselModel.Miniapps.Alimerge
 /-! # C13 — property theorems about the reference functions of the miniapps (statements + glue only)
 
@@ -777,6 +778,15 @@ theorem small_regurgitate_identity (hdr : Line) (r0 : Row) (rs : List Row) (rest
 theorem small_regurgitate_seq_line (c : Cfg) (st : St) (r : Row) (h : r.WF)
     (hlen : st.expAlen = none ∨ st.expAlen = some r.text.length) (hfirst : st.nread ≠ 0 → st.first ≠ some r.name) :
     lineStep c st r.line = .cont (afterRow c st r) := lineStep_row c st r h hlen hfirst
+
+/-- **`--seq-k <list>` and `--seq-r <list>` split the alignment**: with the same list, every row read is regurgitated by exactly one of the
+    two runs (so the two outputs together hold each sequence once), and the `--seq-k` output holds exactly the rows named on the list -/
+theorem small_seq_k_seq_r_split (l : List Line) (rows : List Row) :
+    (wanted { keep := some l } rows).length + (wanted { skip := some l } rows).length = rows.length ∧
+    (∀ r ∈ rows, (r ∈ wanted { keep := some l } rows ∧ r ∉ wanted { skip := some l } rows) ∨
+                 (r ∉ wanted { keep := some l } rows ∧ r ∈ wanted { skip := some l } rows)) ∧
+    (∀ r, r ∈ wanted { keep := some l } rows ↔ r ∈ rows ∧ r.name ∈ l) :=
+  ⟨wanted_keep_skip_length l rows, fun r hr => wanted_keep_skip_mem l rows r hr, fun r => wanted_keep_iff l rows r⟩
 
 /-- a masked row is never longer than the row, and a keep list never invents a row -/
 theorem small_mask_shrinks (u : List Bool) (t : Line) : (shrink u t).length ≤ t.length := by
